@@ -46,7 +46,7 @@ class G:
         fn = "recurse"
         if "call_next" in self.allow and r < 0.25:
             fn = "call_next"
-        elif "selfname" in self.allow and r < 0.35:
+        elif "selfname" in self.allow and r < 0.55:
             fn = "F"
         self.used.add(fn)
         arg = self.expr(depth - 1)
@@ -286,9 +286,9 @@ def worker(payload):
             allow.add("comp_iter")
         elif r < 0.25:
             allow.add("dstar")
-        elif r < 0.35:
+        elif r < 0.45:
             allow.add("selfname")
-        elif r < 0.42:
+        elif r < 0.52:
             allow.add("cn_starred")
         g = G(rng, allow)
         lines = g.body()
@@ -333,6 +333,11 @@ def worker(payload):
                 o8["nontrivial"] += 1
             if got != want:
                 w2 = {**wit, "args": repr(args), "kwargs": kwargs, "got": got, "want": want, "src": src}
+                if o8 is not None and not (got.get("exc") == "SyntaxError" and "comp_iter" in g.used):
+                    # C08 sees every difference of a recurse / own-name body, whatever class C09 files it under
+                    # (except the listed finding D10, which refuses the definition before any delegation happens)
+                    o8["viol"].append({"law": "recurse(args) does not behave like calling the overloaded function with those arguments", **w2})
+                    o8 = None
                 if got.get("exc") == "SyntaxError" and "comp_iter" in g.used:
                     known("D10:call-inside-comprehension-iterable", w2)
                 elif "dstar" in g.used:
